@@ -97,10 +97,16 @@ def geometries(tier):
     else:
         dims, nl = [(1, 1), (1, 2), (2, 1), (2, 2), (1, 3), (3, 1), (2, 3), (3, 2), (3, 3), (1, 4), (4, 1), (2, 4), (4, 2)], 4
         extra = [((4, 4), 2), ((3, 4), 3), ((4, 3), 3)]
+    ndict = 0
     for (nx, ny), k in [(d, nl) for d in dims] + extra:
         for lab in itertools.product(range(k), repeat=nx * ny):
             pat = [list(lab[r * ny:(r + 1) * ny]) for r in range(nx)]
             yield {'kind': 'Rectangular', 'Nx': nx, 'Ny': ny, 'bc': 'infinite', 'pat': pat, 'rect': True, 'per': 'ii'}
+            ndict += 1
+            if nx != ny or ndict % 4 == 0:
+                # the same pattern given in its other documented form, a dictionary {(row, column): label}: must be the same geometry (non-square cells are never symmetric
+                # under transposition)
+                yield {'kind': 'Rectangular', 'Nx': nx, 'Ny': ny, 'bc': 'infinite', 'pat': pat, 'arg': {(r, c): pat[r][c] for r in range(nx) for c in range(ny)}, 'rect': True, 'per': 'ii'}
     # constructor arguments just outside the domain
     yield {'kind': 'Square', 'Nx': 2, 'Ny': 2, 'bc': 'periodic', 'pat': [], 'rect': True, 'per': 'ii'}
     yield {'kind': 'Square', 'Nx': 2, 'Ny': 2, 'bc': 'OBC', 'pat': [], 'rect': True, 'per': 'ii'}
@@ -161,7 +167,8 @@ def store_part(tier, rep):
 
     def run(name):
         cfg = os.path.join(SPEC, '_ls_%s_%d.cfg' % (name, os.getpid()))
-        write_cfg(cfg, tmpl.replace('@G@', name).replace('@D@', str(depth)))
+        # the two-site lattice is explored one level deeper also in the quick tier: re-opening a patch over a patched site that was assigned since needs four steps
+        write_cfg(cfg, tmpl.replace('@G@', name).replace('@D@', str(max(depth, 4) if name == 'G_sq21obc' else depth)))
         try:
             return tlc_ok('LatticeStoreMC', os.path.basename(cfg), workers=1, timeout=1200, mem='3g')
         finally:
